@@ -411,6 +411,24 @@ func c08Dual(c *Ctx) {
 		return true
 	})
 	c.Anchor(outCh != nil && zero != nil && cancel != nil, "dual.FindProvidersAsync: outCh/zeroCount/cancel not identified")
+	// the inner searches run under the request context the merger cancels when it is done
+	{
+		var reqCtx eng.Object
+		f.Walk(func(n ast.Node) bool {
+			if as, ok := n.(*ast.AssignStmt); ok && len(as.Lhs) == 2 && len(as.Rhs) == 1 {
+				if _, isWC := eng.IsCallTo(info, as.Rhs[0], "context.WithCancel"); isWC && eng.ObjOf(info, as.Lhs[1]) == cancel {
+					reqCtx = eng.ObjOf(info, as.Lhs[0])
+				}
+			}
+			return true
+		})
+		inner := f.Calls("(*dht.IpfsDHT).FindProvidersAsync")
+		c.Check(K(f.Name, "inner searches"), f.Pos(), len(inner) == 2 && reqCtx != nil, "the dual search starts the WAN and the LAN search", "found "+itoa(len(inner)))
+		for _, call := range inner {
+			ok := reqCtx != nil && len(call.Args) >= 1 && ctxDerives(f, call.Args[0], reqCtx, 0)
+			c.Check(K(f.Name, "inner search under the request context "+short(call.Fun)), call.Pos(), ok, "both inner searches run under a context derived from the request context, which the merger cancels on every exit (so reaching count, or the caller leaving, ends them and closes their channels)", "the context handed to the inner search can be one that the merger's cancel does not reach")
+		}
+	}
 	sends := f.SendsOn(outCh)
 	c.Check(K(f.Name, "sends"), f.Pos(), len(sends) == 1, "the merger yields in one place", "found "+itoa(len(sends)))
 	for _, s := range sends {
